@@ -24,7 +24,13 @@ static int sub_eq(const CH *a, long a1, long a2, const CH *b, long b1, long b2){
 int main(void){
   CH t1[CAP], t2[CAP]; CH *a, *b; long an, bn; URI A, B; const CH *ep = 0; os_split_t sa, sb; int eq, eq2, same, k, la = 0, lb = 0; CH *ra, *rb; long i;
   an = gen_uri(t1, EFLAGS, KE, SEGL, "a"); a = exact(t1, an, "textA");
+#ifdef SHARED_BUFFER
+  /* B is parsed from a sub-range of A's own buffer that shares its start or its end with A's range */
+  { long s0 = 0, e0 = an; if (uk_choice(2, "share-start")) e0 = uk_choice((int)an + 1, "sub-end"); else s0 = uk_choice((int)an + 1, "sub-start");
+    b = a + s0; bn = e0 - s0; (void)t2; }
+#else
   bn = gen_uri(t2, EFLAGS, KE, SEGL, "b"); b = exact(t2, bn, "textB");
+#endif
   uk_note_text("a", a, an, sizeof(CH)); uk_note_text("b", b, bn, sizeof(CH));
   if (U(uriParseSingleUriExMm)(&A, a, a + an, &ep, &mm) != URI_SUCCESS){ uk_assume(0); return 0; }
   if (U(uriParseSingleUriExMm)(&B, b, b + bn, &ep, &mm) != URI_SUCCESS){ U(uriFreeUriMembersMm)(&A, &mm); uk_assume(0); return 0; }
